@@ -142,15 +142,18 @@ package diagnostic
 //@ -- not a nolint for NilAway) or appends exactly one range: the cwd-relative file of the commented node and the
 //@ -- lines of the node's first and last position; ranges collected earlier are kept.
 //@ define (posOf fset p) (call |(*go/token.FileSet).Position| fset p)
+//@ -- physical position: NOT adjusted by //line directives - the coordinates conflicts are reported in (defect F22:
+//@ -- nolint ranges and file names were taken in adjusted coordinates)
+//@ define (physOf fset p) (call |(*go/token.FileSet).PositionFor| fset p false)
 //@ func run
 //@ prop C11 C18
 //@ modifies *
 //@ loop 3 step nolint-comment-adds-exactly-its-node-range (let ((before (athead ranges)) (fset (. (local pass) Pass Fset)))
 //@    (ite (call nolintContainsNilAway (. (local comm) Text))
 //@      (and (= (len ranges) (+ (len before) 1))
-//@           (= (. (idx ranges (len before)) Filename) (call |go.uber.org/nilaway/util/tokenhelper.RelToCwd| (. (posOf fset (mcall Pos (local node))) Filename)))
-//@           (= (. (idx ranges (len before)) From) (. (posOf fset (mcall Pos (local node))) Line))
-//@           (= (. (idx ranges (len before)) To) (. (posOf fset (mcall End (local node))) Line))
+//@           (= (. (idx ranges (len before)) Filename) (call |go.uber.org/nilaway/util/tokenhelper.RelToCwd| (. (physOf fset (mcall Pos (local node))) Filename)))
+//@           (= (. (idx ranges (len before)) From) (. (physOf fset (mcall Pos (local node))) Line))
+//@           (= (. (idx ranges (len before)) To) (. (physOf fset (mcall End (local node))) Line))
 //@           (forall ((j Int)) (=> (and (<= 0 j) (< j (len before))) (= (idx ranges j) (atloop (idx before j))))))
 //@      (= ranges before)))
 
@@ -166,7 +169,7 @@ package diagnostic
 //@ define (ownFunc pass c fi di name) (let ((file (idx pass.Pass.Files fi)))
 //@    (and (<= 0 fi) (< fi (len pass.Pass.Files)) (<= 0 di) (< di (len (. file Decls))) (is (idx (. file Decls) di) *ast.FuncDecl)
 //@         (let ((fd (as (idx (. file Decls) di) *ast.FuncDecl)))
-//@           (and (= (call |go.uber.org/nilaway/util/tokenhelper.RelToCwd| (. (posOf pass.Pass.Fset (. file FileStart)) Filename)) (. c position Filename))
+//@           (and (= (call |go.uber.org/nilaway/util/tokenhelper.RelToCwd| (. (physOf pass.Pass.Fset (. file FileStart)) Filename)) (. c position Filename))
 //@                (>= (. c position Offset) (. (posOf pass.Pass.Fset (call |(*go/ast.FuncDecl).Pos| fd)) Offset))
 //@                (<= (. c position Offset) (. (posOf pass.Pass.Fset (call |(*go/ast.FuncDecl).End| fd)) Offset))
 //@                (= name (. fd Name Name))))))
@@ -175,7 +178,7 @@ package diagnostic
 //@ prop C13 C18
 //@ loop 1 invariant prefix-names-the-conflicts-own-function (keyPrefixOK pass c key (strcat (strcat (. (local p) producerRepr) ";") (. (local p) consumerRepr)))
 //@ loop 2 invariant prefix-names-the-conflicts-own-function (and (keyPrefixOK pass c key (strcat (strcat (. (local p) producerRepr) ";") (. (local p) consumerRepr)))
-//@    (= (call |go.uber.org/nilaway/util/tokenhelper.RelToCwd| (. (posOf pass.Pass.Fset (. (local file) FileStart)) Filename)) (. c position Filename))
+//@    (= (call |go.uber.org/nilaway/util/tokenhelper.RelToCwd| (. (physOf pass.Pass.Fset (. (local file) FileStart)) Filename)) (. c position Filename))
 //@    (= (local file) (idx pass.Pass.Files (+ rangeindex@1 1))) (<= -1 rangeindex@1) (< (+ rangeindex@1 1) (len pass.Pass.Files)) (<= -1 rangeindex) (< rangeindex (len (. (local file) Decls))))
 
 //@ -- C14 (file table): every file of the file set is entered under its cwd-relative name, and it is classified as a
